@@ -89,7 +89,7 @@ fn entry_points(acc: &mut Acc, q: &str, doc: &Value, am: &AddrMap) {
 }
 
 fn docs_extra_queries(qs: &mut Vec<String>) {
-    for q in ["$['a b']", "$['a  b']", "$[\"a b\"]", "$[' ']", "$['  ']", "$[?@=='a b']", "$[?@=='a  b']", "$..[?@.k=='x y']", "$..[?@.k=='x  y']", "$['a\tb']"] {
+    for q in ["$['a b']", "$['a  b']", "$[\"a b\"]", "$[' ']", "$['  ']", "$[?@=='a b']", "$[?@=='a  b']", "$..[?@.k=='x y']", "$..[?@.k=='x  y']", "$['a\tb']", "$[?@.a,?@.b,?@.a]", "$[?@.a,?@.b,?@.a,?@.b]", "$..[?@.a,?@==1,?@.a]"] {
         qs.push(q.to_string());
     }
 }
